@@ -627,7 +627,8 @@ class Trellis:
         # Schema 3 became outdated due to a change in step table (dirty field).
         # Schema 4 became outdated due to the v4.0.0 rewrite.
         # Schema 5 became outdated due to a change in the dependency delete trigger.
-        return 6
+        # Schema 6 became outdated due to the trigger that wakes up steps deferred on a detached input.
+        return 7
 
     @classmethod
     def schema(cls) -> str:
